@@ -80,11 +80,18 @@ def run_c14(chk):
                 r["bookings"] = [[day + chk.rng.choice([0, 9, 13]) * 3600, chk.rng.choice(["1m", "1m", "2m"])]]
                 p["dur"] = [max(p["dur"][0], 14), "w"]
     weeks = [1, 4, 52, 53, 104, 261]
+    from .common import replay_asts, replay_items
+    replay_weeks = None
+    if replay_asts(chk) is not None:
+        asts = replay_asts(chk)
+        replay_weeks = [it.get("weeks") for it in replay_items(chk) if isinstance(it.get("ast"), dict)]
     base = project_stream.run_projects(chk, asts, want_oracles=())
     dis = [{"stream": "project", "text": r["text"], "ast": r["ast"], "diffs": r["diffs"][:6]} for r in base if r["diffs"] and not r["skipped"]]
     pairs = []
     for i, p in enumerate(asts):
         ks = [weeks[i % len(weeks)], chk.rng.randrange(1, 300)] + ([-weeks[(i + 2) % len(weeks)]] if i % 3 == 0 else [])
+        if replay_weeks is not None:
+            ks = [replay_weeks[i]] if replay_weeks[i] is not None else weeks + [-1, -52]
         for k in ks:
             pairs.append((i, k, shift_ast(p, k * 604800)))
     outs = run_texts(chk, [render.render(q) for _, _, q in pairs])
@@ -186,9 +193,17 @@ def run_c09(chk):
     k3 = Knobs(envelope="asap", max_res=3, max_tasks=6, p_alt=0.7, p_team=0.0, p_dep=0.3, p_container=0.2, p_limits=0.0,
                p_wh=0.15, p_leave=0.2, big_effort=0.5, dur_weeks=[3, 4])
     asts += [gen.gen_project(chk.rng, k3) for _ in range(n // 4)]
+    from .common import replay_asts, replay_items
+    replay_plus = None
+    if replay_asts(chk) is not None:
+        asts = replay_asts(chk)
+        replay_plus = [it.get("with_added_ast") for it in replay_items(chk) if isinstance(it.get("ast"), dict)]
     base = project_stream.run_projects(chk, asts, want_oracles=())
     dis = [{"stream": "project", "text": r["text"], "ast": r["ast"], "diffs": r["diffs"][:6]} for r in base if r["diffs"] and not r["skipped"]]
     plus = [add_lowest(p, chk.rng) for p in asts]
+    if replay_plus is not None:
+        # the recorded pair: the extended project as it was (older replay files hold its text only: then a new lowest task is drawn)
+        plus = [q if isinstance(q, dict) else add_lowest(p, chk.rng) for p, q in zip(asts, replay_plus)]
     # the extended projects go through the model as well (tie), and the pair through the two-run theorem
     plusres = project_stream.run_projects(chk, plus, want_oracles=())
     dis += [{"stream": "project-plus", "text": r["text"], "ast": r["ast"], "diffs": r["diffs"][:6]} for r in plusres if r["diffs"] and not r["skipped"]]
@@ -231,7 +246,7 @@ def run_c09(chk):
         if t1 != t2:
             fid = next(f for f in t1 if t1[f] != t2.get(f))
             found.append((f"C09: adding the lowest-priority task zlow changed task {fid}: {t1[fid]} -> {t2.get(fid)}",
-                          {"ast": p, "text": r["text"], "with_added": render.render(q), "task": fid}))
+                          {"ast": p, "text": r["text"], "with_added": render.render(q), "with_added_ast": q, "task": fid}))
         # did the intruder actually compete for a resource?
         zl = s2["tasks"].get("zlow")
         if zl and zl["scheduled"]:
@@ -272,6 +287,9 @@ def run_c16(chk):
           Knobs(p_scen=1.0, p_scen_date=0.3, envelope="alap", p_container=0.7, p_limits=0.2, dur_weeks=[2, 3])]
     asts = [w for _, w in SC.witness_asts("C16")]
     asts += [gen.gen_project(chk.rng, ks[i % 4]) for i in range(n)]
+    from .common import replay_asts
+    if replay_asts(chk) is not None:
+        asts = replay_asts(chk)
     base = project_stream.run_projects(chk, asts, want_oracles=())
     dis = [{"stream": "project", "text": r["text"], "ast": r["ast"], "diffs": r["diffs"][:6]} for r in base if r["diffs"] and not r["skipped"]]
     singles = []
